@@ -215,9 +215,17 @@ class HardwareSetup:
         """Clears all programs from all known AWG and DAC devices.
 
         Does not affect channel configurations or measurement masks set by set_channel or set_measurement."""
-        for awg in self.known_awgs:
+        known_awgs = self.known_awgs
+        known_dacs = self.known_dacs
+        for name, program_info in self._registered_programs.items():
+            # devices that were taken out of the channel / measurement wiring after the registration are not
+            # reached by clearing the known devices
+            self._remove_from_devices(name,
+                                      program_info.awgs_to_upload_to - known_awgs,
+                                      program_info.dacs_to_arm - known_dacs)
+        for awg in known_awgs:
             awg.clear()
-        for dac in self.known_dacs:
+        for dac in known_dacs:
             dac.clear()
         self._registered_programs = dict()
 
